@@ -251,6 +251,77 @@ pub mod fs {
             r is Err ==> final(w).fs == old(w).fs && final(w).hist == old(w).hist,
     { unimplemented!() }
 
+    // ---- directory listing / recursive removal ----------------------------------------------
+    /// the component of `p` directly below `d` (p strictly under d)
+    pub open spec fn child_towards(d: PathV, p: PathV) -> PathV { child_towards_spec(d, p) }
+    #[verifier::external_body]
+    pub struct DirEntry { e: u8 }
+    impl View for DirEntry { type V = PathV; uninterp spec fn view(&self) -> PathV; }
+    impl DirEntry {
+        #[verifier::external_body]
+        pub fn path(&self) -> (r: PathBuf) ensures r@ == self@ { unimplemented!() }
+    }
+    /// the result of read_dir(d): a snapshot of d's direct children
+    #[verifier::external_body]
+    pub struct ReadDir { r: u8 }
+    pub struct ReadDirV { pub dir: PathV, pub fs: Fs, pub healthy: bool }
+    impl View for ReadDir { type V = ReadDirV; uninterp spec fn view(&self) -> ReadDirV; }
+    impl ReadDir {
+        /// `Iterator::flatten` over io::Result<DirEntry>: the entries that could be read.
+        /// ASSUMED (and this encodes that a file system is a tree): on a healthy file system
+        /// every path that exists strictly below `dir` lies at or below one of the yielded
+        /// entries; every yielded entry is a direct child of `dir`; no entry is yielded twice.
+        #[verifier::external_body]
+        pub fn flatten(self) -> (r: crate::shims::iter::Iter<DirEntry>)
+            ensures
+                !r@.endless,
+                forall|i: int| 0 <= i < r@.items.len() ==> parent_of((#[trigger] r@.items[i])@) == self@.dir && r@.items[i]@.comps.len() == self@.dir.comps.len() + 1,
+                forall|i: int, j: int| 0 <= i < j < r@.items.len() ==> (#[trigger] r@.items[i])@ != (#[trigger] r@.items[j])@,
+                self@.healthy ==> forall|p: PathV| #![trigger exists_at(self@.fs, p)] strictly_under(p, self@.dir) && exists_at(self@.fs, p) ==>
+                    exists|i: int| 0 <= i < r@.items.len() && (#[trigger] r@.items[i])@ == child_towards(self@.dir, p),
+        { unimplemented!() }
+    }
+    impl Path {
+        #[verifier::external_body]
+        pub fn read_dir(&self, Tracked(w): Tracked<&World>) -> (r: io::Result<ReadDir>)
+            ensures
+                r is Ok ==> r->Ok_0@.dir == self@ && r->Ok_0@.fs == w.fs && r->Ok_0@.healthy == w.healthy,
+                w.healthy && w.fs.dirs.contains(self@) ==> r is Ok,
+        { unimplemented!() }
+    }
+    /// remove_dir_all(p): removes p and everything below it.  On failure any part of it may
+    /// already be gone.  Nothing that is not at or below p is touched.
+    pub open spec fn removed_under(pre: Fs, post: Fs, p: PathV) -> bool {
+        &&& same_outside(pre, post, p)
+        &&& forall|q: PathV| #![trigger post.files.contains_key(q)] post.files.contains_key(q) ==> pre.files.contains_key(q) && post.files[q] == pre.files[q]
+        &&& forall|q: PathV| #![trigger post.links.contains_key(q)] post.links.contains_key(q) ==> pre.links.contains_key(q) && post.links[q] == pre.links[q]
+        &&& forall|q: PathV| #![trigger post.dirs.contains(q)] post.dirs.contains(q) ==> pre.dirs.contains(q)
+    }
+    /// removing below a sub-directory c of d composes with what was already removed below d
+    pub proof fn lemma_removed_under_compose(d: PathV)
+        ensures
+            forall|pre: Fs, mid: Fs, post: Fs, c: PathV| #![trigger removed_under(pre, mid, d), removed_under(mid, post, c)]
+                removed_under(pre, mid, d) && removed_under(mid, post, c) && under(c, d) ==> removed_under(pre, post, d),
+            forall|pre: Fs, mid: Fs, post: Fs, c: PathV| #![trigger same_outside(pre, mid, d), removed_under(mid, post, c)]
+                same_outside(pre, mid, d) && removed_under(mid, post, c) && under(c, d) ==> same_outside(pre, post, d),
+    {
+        assert forall|pre: Fs, mid: Fs, post: Fs, c: PathV| same_outside(pre, mid, d) && #[trigger] removed_under(mid, post, c) && under(c, d) implies #[trigger] same_outside(pre, post, d) by {
+            assert forall|p: PathV| !under(p, d) implies !under(p, c) by { if under(p, c) { lemma_under_trans(p, c, d); } }
+        }
+        assert forall|pre: Fs, mid: Fs, post: Fs, c: PathV| #[trigger] removed_under(pre, mid, d) && #[trigger] removed_under(mid, post, c) && under(c, d) implies removed_under(pre, post, d) by {
+            assert forall|p: PathV| !under(p, d) implies !under(p, c) by { if under(p, c) { lemma_under_trans(p, c, d); } }
+        }
+    }
+    #[verifier::external_body]
+    pub fn remove_dir_all<A: PathArg>(p: A, Tracked(w): Tracked<&mut World>) -> (r: io::Result<()>)
+        ensures
+            old(w).healthy == final(w).healthy, world_wf(*old(w)) ==> world_wf(*final(w)), hist_ext(*old(w), *final(w)),
+            removed_under(old(w).fs, final(w).fs, p.pathv()),
+            forall|i: int| old(w).hist.len() <= i < final(w).hist.len() ==> removed_under(old(w).fs, #[trigger] final(w).hist[i], p.pathv()),
+            r is Ok ==> forall|q: PathV| #![trigger exists_at(final(w).fs, q)] under(q, p.pathv()) ==> !exists_at(final(w).fs, q),
+            old(w).healthy && old(w).fs.dirs.contains(p.pathv()) ==> r is Ok,
+    { unimplemented!() }
+
     /// unlink(2)
     #[verifier::external_body]
     pub fn remove_file<A: PathArg>(p: A, Tracked(w): Tracked<&mut World>) -> (r: io::Result<()>)
